@@ -100,3 +100,67 @@ func vhC07HeadTooLarge() {
 		vAssert("small-head-served", ok && len(rs) == 1 && rs[0].status == 200 && calls == 1)
 	}
 }
+
+// vhC07AnnouncedTooLarge: the size is announced (Content-Length, or a chunk
+// size line) before the data, and the data arrives in later segments. Once
+// the announcement exceeds the limit the server must give up without pulling
+// the data off the connection: what it has not read it cannot have buffered.
+// The limit comes from MaxRequestBodySize, or from a smaller per-request
+// limit returned by HeaderReceived; the request may carry Expect: 100-continue.
+func vhC07AnnouncedTooLarge() {
+	L := vIntRange("limit", 1, vParam("maxLimit", 6))
+	n := vIntRange("announced", 1, 40)
+	perRequest := vBool("limitFromHeaderReceived")
+	expect := vBool("expect100")
+	chunked := vBool("chunked")
+	head := "POST /p HTTP/1.1\r\nHost: a\r\n"
+	if expect {
+		head += "Expect: 100-continue\r\n"
+	}
+	nn := vConc(n) // the announced size is written into the head: one path per value
+	var first string
+	if chunked {
+		const hexd = "0123456789abcdef"
+		first = head + "Transfer-Encoding: chunked\r\n\r\n" + string([]byte{hexd[nn>>4], hexd[nn&15]}) + "\r\n"
+	} else {
+		first = head + "Content-Length: " + c07Digits(nn) + "\r\n\r\n"
+	}
+	data := make([]byte, nn)
+	for i := range data {
+		data[i] = 'd'
+	}
+	tail := ""
+	if chunked {
+		tail = "\r\n0\r\n\r\n"
+	}
+	c := &vsSegConn{segs: [][]byte{[]byte(first), data, []byte(tail + "GET /next HTTP/1.1\r\nHost: a\r\nConnection: close\r\n\r\n")}}
+	s := &Server{NoDefaultDate: true, NoDefaultServerHeader: true}
+	if perRequest {
+		s.MaxRequestBodySize = 64
+		s.HeaderReceived = func(h *RequestHeader) RequestConfig {
+			return RequestConfig{MaxRequestBodySize: L}
+		}
+	} else {
+		s.MaxRequestBodySize = L
+	}
+	maxHeld := 0
+	dispatched := 0
+	s.Handler = func(ctx *RequestCtx) {
+		if string(ctx.Path()) == "/p" {
+			dispatched++
+			if b := ctx.PostBody(); len(b) > maxHeld {
+				maxHeld = len(b)
+			}
+		}
+		ctx.SetBodyString("ok")
+	}
+	s.ServeConn(c)
+	vAssert("never-hands-over-more-than-limit", maxHeld <= L)
+	if nn > L {
+		vAssert("oversized-announcement-not-dispatched", dispatched == 0)
+		vAssert("data-beyond-the-limit-is-not-pulled-off-the-connection", c.next <= 1)
+		vAssert("connection-closed", c.closed == 1)
+	} else {
+		vAssert("body-within-limit-dispatched", dispatched == 1)
+	}
+}
